@@ -108,6 +108,7 @@ type conc struct {
 	keys    *keyring
 	chainID int32
 	t0      int64 // wall-clock second the behaviour's clock tick 0 is anchored to
+	hoff    int64 // real height of model height 0 (the node rig works above a trunk)
 	rng     *rand.Rand
 	good    map[int]*types.Transaction   // id -> the item as submitted (a group is its Tx())
 	members map[int][]*types.Transaction // id -> member transactions (singles: one)
@@ -126,7 +127,7 @@ func (c *conc) sign(tx *types.Transaction, sender string) {
 func (c *conc) expire(e *entry) int64 {
 	switch e.Xk {
 	case "h":
-		return e.Xv
+		return e.Xv + c.hoff
 	case "t":
 		return c.t0 + e.Xv*tick + tick/2
 	}
@@ -203,14 +204,14 @@ func (c *conc) build(id int, fee int64, mutate func(i int, tx *types.Transaction
 	return g.Tx(), g.Txs, nil
 }
 
-func newConc(tab map[int]*entry, senders []string, chainID int32, t0 int64, seed int64, salt string) (*conc, error) {
+func newConc(tab map[int]*entry, senders []string, chainID int32, t0 int64, hoff int64, seed int64, salt string) (*conc, error) {
 	eth := map[string]bool{}
 	for _, e := range tab {
 		if e.Eth {
 			eth[e.S] = true
 		}
 	}
-	c := &conc{tab: tab, chainID: chainID, t0: t0, rng: rand.New(rand.NewSource(seed)),
+	c := &conc{tab: tab, chainID: chainID, t0: t0, hoff: hoff, rng: rand.New(rand.NewSource(seed)),
 		good: map[int]*types.Transaction{}, members: map[int][]*types.Transaction{}, byHash: map[string]int{}, expPos: map[int]int{}}
 	c.keys = newKeyring(senders, eth, fmt.Sprint(seed%7))
 	for id := 1; id <= len(tab); id++ {
